@@ -189,5 +189,8 @@ def run(check, ctx):
                      note="SP 800-185 3.3")
     from . import c03_extra
     c03_extra.run(check, ctx)
+    # the native Poly1305 on a boundary table of limb values
+    from . import c_poly
+    c_poly.poly_tables(check, ctx)
     check.undecided.append("digest values: compression functions, sponge permutation and padding in C; "
-                           "KangarooTwelve tree bookkeeping values")
+                           "KangarooTwelve tree bookkeeping values; Poly1305 beyond the boundary table")
